@@ -415,6 +415,18 @@ def run(m: Model, r: Report, tier: str) -> None:
     ys = [n for n in ast.walk(rec.node) if isinstance(n, ast.Yield)]
     r.check(len(ys) == 2 and all(ast.unparse(y.value) == "self.current_record" for y in ys), "R5", f"{rec.qualname}#yields", "both directions must yield the current record", loc=rec.loc)
 
+    # a line that was read is parsed only after it was found non-empty (end of data / a log without records): in both directions
+    grec = CFG(rec.node)
+    prio_nodes = {n.id for n in grec.nodes.values() if n.kind == "cond" and n.ast is not None and "self.current_priority" in ast.unparse(n.ast)}
+    empt = [n for n in grec.nodes.values() if n.kind == "cond" and n.ast is not None and "self.readline()" in ast.unparse(n.ast) and "b''" in ast.unparse(n.ast)]
+    if len(prio_nodes) != 2:
+        raise AnalysisError(f"{rec.qualname}: expected two priority tests (forward / reverse)")
+
+    for pn in sorted(prio_nodes):
+        oke, _pe = grec.must_pass(grec.entry, {e.id for e in empt}, {pn})
+        r.check(oke, "R5", f"{rec.qualname}#empty-line-guard@{'forward' if pn == min(prio_nodes) else 'reverse'}",
+                "the priority of the line just read is evaluated without testing the line for emptiness first: at the end of the data / for a log without records "
+                "the empty line is handed to the JSON parser, which raises", loc=rec.loc)
     # ---------------------------------------------------------------- R6
     reader = m.require_class(f"{LOG}.PenlogReader")
     n_idx = 0
